@@ -23,6 +23,45 @@ CLAIMED = {
     },
 }
 
+CLAIMED.update({
+    "C07": {
+        "technique": "TLA+ grammar (trees, precedence levels, canonical printing) enumerated by TLC; every generated program replayed into parser.Parse in several layouts; accepted sources trace-validated by TLC (StmtOK)",
+        "text": "TLC enumerates the program families of spec/GenProg.tla exhaustively (all pairs of the 16 binary-level operators in both groupings with decorated operands, triples, sign/index/call/paren nests in every operand context, an expression menu in every expression position, every operator with every combination of optional parts, operator and statement sequences) plus random deep trees; each terminal state carries the tree the grammar dictates and is parsed by the real Parse in 4-12 layouts with keyword synonyms; trees must be equal field by field. Real parses of other accepted sources are validated by TLC against the grammar's well-formedness predicate.",
+        "note": "Trusts TLC, the token->text renderer and the AST->record projection of the harness, and the lexer (C09).",
+        "ref": "DESIGN.md 3.2, 4 (C07)",
+    },
+    "C08": {
+        "technique": "TLA+ token-accounting relation (Accounts/Align over Toks) evaluated by TLC on every source the real Parse accepts among all single-token edits of generated programs and random token soups",
+        "text": "TLC generates every single-token corruption (delete, duplicate, transpose, truncate, insert from a 8-22 token menu incl. error tokens) of every base program of the operator/position families; each is parsed for real; for every accepted source the (Scan tokens, returned tree) observation is validated by TLC against Accounts: re-printing the tree must give back the tokens, only the two documented commas and empty statements may be absent.",
+        "note": "Trusts TLC, the AST->record projection, and Scan for the significant tokens (C09). A Go transcription of the relation pre-filters; TLC decides and must agree with it.",
+        "ref": "DESIGN.md 3.2, 4 (C08)",
+    },
+    "C10": {
+        "technique": "TLA+ Toks assigns every token an owner path and role; TLC-generated programs replayed; every Span()/span field of the real tree compared with the extent of the owner's tokens; error positions checked on corrupted sources",
+        "text": "For every generated program and layout (multi-line, tabs, comments, CRLF) each of the real tree's Span() results and recorded part spans must equal the byte extent of the tokens the specification assigns to that node / part (invalid span for absent parts); implicit column names must be the source slice; for failed parses and compiles every span lies inside the source and every line:column prefix points into it.",
+        "note": "Trusts TLC, the renderer's byte offsets and the node/path enumeration of the harness.",
+        "ref": "DESIGN.md 4 (C10)",
+    },
+    "C11": {
+        "technique": "TLC-generated trees (every node type in every child position) replayed into parser.Walk; visit log compared with the child relation of the specification's tree; pruning at every node",
+        "text": "For every generated statement the real Walk runs with an always-true visitor and with a visitor returning false at each node in turn: every identifier and expression node exactly once, no node twice, never nil, ancestors first, pruned set = all minus strict descendants; panics are caught.",
+        "note": "Sibling order unconstrained. Node enumeration by the harness mirrors Grammar.tla paths.",
+        "ref": "DESIGN.md 3.3, 4 (C11)",
+    },
+    "C12": {
+        "technique": "TLC-generated programs, planted violations, all single-token corruptions and pathological nestings (depth up to 2000) plus random byte/token soups run through Scan/SplitStatements/Parse/Walk/Compile under a panic trap and a watchdog",
+        "text": "All generator families, the stress family (nesting of parentheses, calls, indexes, signs, joins, unbalanced brackets, operator/pipe/comma/error-token cascades to depth 500/2000) and random inputs are executed for real with three parameter maps; a recovered panic or a call exceeding the watchdog limit is a violation, confirmed by replay.",
+        "note": "Wall-clock limit 8 s per call (measured, not modelled).",
+        "ref": "DESIGN.md 4 (C12)",
+    },
+    "C13": {
+        "technique": "TLA+ plant family: each documented Compile rule broken at every expression slot and depth next to its rule-abiding twin; TLC enumerates, harness compiles for real; either/or contract on every input of every family",
+        "text": "TLC enumerates 11 built-ins x arities 0..4 x 13 expression slots x 7 nesting depths, $left/$right in and outside join conditions, let values of every forbidden and allowed shape, zero/one/two queries, join kinds, row-count literals; the specification states for each whether Compile must fail; the real Compile must agree, and on every input of every family (incl. corruptions and soups) returns exactly one of SQL and error.",
+        "note": "Render property values are outside the planted positions (the documentation does not say they are compiled).",
+        "ref": "DESIGN.md 3.7, 4 (C13)",
+    },
+})
+
 NOT_YET = {}
 
 
